@@ -221,6 +221,25 @@ def run(chk):
     nt = c04.tree_fresh(chk, db, "C01-D4.tree")
     chk.floor("C01-D4.tree", nt, 4, "changes of the loaded point set in GridLocalPolynomial")
 
+    # ------------------------------------------------------------------ D5 / D6
+    from rules import vander
+    chk.rule("C01-D5.vandermonde", "the sparse 1-D Vandermonde pattern of the Kronecker surplus algorithm: column indexes and values are appended in lock-step, the value in column J of the row of "
+                                   "node r is evalRaw<rule>(max_order, J, getNode(r)), range insertions of the ancestor arrays run in the same direction; the inline ancestor walk takes the steps of getParent<rule>")
+    nv = vander.van_rule(chk, db, "C01-D5.vandermonde")
+    nw = vander.walk_rule(chk, db, "C01-D5.vandermonde")
+    chk.floor("C01-D5.vandermonde", nv, 30, "paired appends in van_matrix")
+    chk.floor("C01-D5.vandermonde", nw, 5, "ancestor walks in van_matrix")
+    chk.rule("C01-D6.insert", "single-point expansion keeps coefficients aligned with points: the strip insertion kernel and the order of insertion / index shift / update (obligations of C09-D3)")
+    from rules import c09
+    sub9 = Check("C09", chk.tier, chk.seed)
+    c09.expand_rules(sub9, db)
+    n6 = 0
+    for o in sub9.obls:
+        if o["rule"] == "C09-D3.expand":
+            n6 += 1
+            chk.ob("C01-D6.insert", o["function"], o["construct"], o["ok"], o["where"], o["detail"], o["expected"])
+    chk.floor("C01-D6.insert", n6, 7, "expansion obligations shared with C09")
+
     return ("Static rule discharge over the five grid classes (all instantiations): must-pass-after analysis on the CFG tying every change of the stored values / loaded points to a decision "
             "about the hierarchical coefficients (method summaries are computed as a fixpoint over calls on the same object), the merge-order obligations shared with C07, the guard of the "
-            "Kronecker algorithm and the rebuild of the evaluation tree. That the computed surpluses / coefficients are the right numbers is numerical and not decided.")
+            "Kronecker algorithm, the pairing of columns and basis values in its sparse Vandermonde pattern, the single-point insertion kernel and the rebuild of the evaluation tree. That the computed surpluses / coefficients are the right numbers is numerical and not decided.")
